@@ -20,7 +20,8 @@
      gs_ok gs       g_act sorted by fn (ascending, not strictly) and map e_slot g_act ++ g_inact is a permutation of the slots 0..15
      gop            GT o (an operation of the TDMA scheduler) | GReq si fn p3 | GExec fn | GReset;  g_run = history of both schedulers
      gwalk tgt l    the `if (fn == tgt) {hand over} if (fn > tgt) break;` walk of sched_gsmtime_execute alone: (list afterwards, events handed over)
-     gexec_target fn = (fn + 2) mod 2^32 (uint32 arithmetic of `fn + SCHEDULE_AHEAD`);  gexec_offset = 1 = SCHEDULE_AHEAD - SCHEDULE_LATENCY
+     gexec_target fn = ((fn + 2) mod 2^32) mod 2715648 (`(fn + SCHEDULE_AHEAD) % GSM_MAX_FN` in uint32);  gexec_offset = 1 = SCHEDULE_AHEAD - SCHEDULE_LATENCY
+     clock t j      the j consecutive frame numbers t, t+1, ... modulo the hyperframe 2715648 (what l1_sync passes to sched_gsmtime_execute)
      gs_step / gs_run   the event scheduler alone (it never reads the TDMA scheduler): state, and per execute (fn, events handed over)
      expand gs ops  what the TDMA scheduler sees: every GExec replaced by OSet 1 si p3 for each event it hands over, in order
      hand_over off ts evs   tdma_schedule_set(off, si, p3) for each event in order; qlog obs = events handed over per execute, from the observations
@@ -328,8 +329,8 @@ Theorem c08_gsm_execute_sorted : forall (tgt : Z) (l : list gev), StronglySorted
 Proof. exact gwalk_sorted. Qed.
 Print Assumptions c08_gsm_execute_sorted.
 
-(* never otherwise, any list: whatever sched_gsmtime_execute(fn) hands over has fn_event = (fn + 2) mod 2^32, and it only moves events:
-   kept ++ handed over is a permutation of what was pending *)
+(* never otherwise, any list: whatever sched_gsmtime_execute(fn) hands over has fn_event = target (for a clock frame fn < 2715648 the
+   target is (fn + 2) mod 2715648: c08_gsm_target), and it only moves events: kept ++ handed over is a permutation of what was pending *)
 Theorem c08_gsm_only_due : forall (tgt : Z) (l : list gev),
   Forall (fun e => e_fn e = tgt) (snd (gwalk tgt l)) /\ Permutation (fst (gwalk tgt l) ++ snd (gwalk tgt l)) l.
 Proof. exact (fun tgt l => conj (gwalk_fired_due tgt l) (gwalk_perm tgt l)). Qed.
@@ -357,26 +358,60 @@ Theorem c08_gsm_reset : forall (gs : gstate), gs_ok gs ->
 Proof. exact reset_spec. Qed.
 Print Assumptions c08_gsm_reset.
 
-(* exactly once, in frame F - 2.  Any state with a free slot (s = the first), an event requested for frame F, 2 <= F < 2^32; then ANY
-   operations [mid] (further requests below, above, equal to F; TDMA operations) without sched_gsmtime_reset in which every
-   sched_gsmtime_execute(fn) has 0 <= fn and fn + 2 < F - the admissible window: the request comes no later than the interrupt of frame
-   F - 2 and the frame numbers passed in between are below F - 2 (consecutive fn, fn + 1, ... as l1_sync passes them, within one hyperframe):
-   the request is accepted; none of those executes hands slot s over; the event is still pending; sched_gsmtime_execute(F - 2) hands it over
-   - slot s exactly once among the events handed over, all of which are events for frame F -; afterwards it is no longer pending and slot s
-   is free again (so no later execute can hand it over) *)
-Theorem c08_gsm_exactly_once_on_time : forall (gs : gstate) (s : nat) (rest : list nat) (si : list item) (F p3 : Z) (mid : list gop),
-  gs_ok gs -> g_inact gs = s :: rest -> 2 <= F < 4294967296 ->
-  Forall (fun fn => 0 <= fn /\ fn + 2 < F) (exec_fns mid) -> ~ In GReset mid ->
+(* the look-ahead target on the hyperframe clock: two frames ahead modulo 2715648, always a frame number of the hyperframe - so an event
+   requested with a frame number >= 2715648 is never handed over (the callers reduce theirs) *)
+Theorem c08_gsm_target :
+  (forall fn, 0 <= fn < 2715648 -> gexec_target fn = (fn + 2) mod 2715648) /\
+  (forall fn, 0 <= gexec_target fn < 2715648) /\
+  (forall fn l e, In e (snd (gwalk (gexec_target fn) l)) -> 0 <= e_fn e < 2715648).
+Proof. exact (conj target_clock (conj target_range out_of_range_never)). Qed.
+Print Assumptions c08_gsm_target.
+
+(* exactly once, in frame (F - 2) mod 2715648, across the hyperframe wrap.  Any state with a free slot (s = the first); the clock shows
+   frame t (the next sched_gsmtime_execute gets t), an event is requested for ANY frame F of the hyperframe, 0 and 1 included; then ANY
+   operations [mid] (further requests below, above, equal to F, before or behind the wrap; TDMA operations) without sched_gsmtime_reset whose
+   executes are the running clock: exactly j = (F - 2 - t) mod 2715648 of them, with the frame numbers t, t+1, ... modulo 2715648.
+   Admissible window: NONE is excluded - for a request d = (F - t) mod 2715648 frames ahead with 2 <= d <= 2715647 this is j = d - 2
+   executes, the hand-over happens in frame F - 2 and the items run from frame F - 1 on; a STALE request (d = 0 or 1: frame F is the
+   current one or the next, its hand-over frame has passed) has j = 2715646 + d: it stays pending, holds its slot, and is handed over when
+   the clock comes round, one hyperframe late - that is what the code does.
+   Then: the request is accepted; none of the j executes hands slot s over; the event is still pending; the next execute, of frame
+   (F - 2) mod 2715648 = (t + j) mod 2715648, hands it over - slot s exactly once among the events handed over, all of which are events for
+   frame F -; afterwards it is no longer pending and slot s is free again (no later execute can hand it over).
+   The early `break` cannot lose it: the list is sorted by the absolute fn (c08_gsm_invariants), every entry in front of a due event has
+   fn <= target, whatever side of the wrap the other pending events are on (c08_gsm_execute_sorted holds for every target). *)
+Theorem c08_gsm_exactly_once_on_time : forall (gs : gstate) (s : nat) (rest : list nat) (si : list item) (t F p3 : Z) (mid : list gop) (j : nat),
+  gs_ok gs -> g_inact gs = s :: rest ->
+  0 <= t < 2715648 -> 0 <= F < 2715648 -> Z.of_nat j = (F - 2 - t) mod 2715648 ->
+  exec_fns mid = clock t j -> ~ In GReset mid ->
   let e := {| e_slot := s; e_si := si; e_fn := F; e_p3 := p3 |} in
   let gs2 := fst (gs_run gs (GReq si F p3 :: mid)) in
-  let W := snd (gwalk (gexec_target (F - 2)) (g_act gs2)) in
+  let fx := (F - 2) mod 2715648 in
+  let W := snd (gwalk (gexec_target fx) (g_act gs2)) in
+  fx = (t + Z.of_nat j) mod 2715648 /\
   sched_gsmtime gs si F p3 = (fst (gs_step gs (GReq si F p3)), 0) /\
   (forall fn fired, In (fn, fired) (snd (gs_run gs (GReq si F p3 :: mid))) -> ~ In s (map e_slot fired)) /\
   gs_ok gs2 /\ In e (g_act gs2) /\
   In e W /\ count_occ Nat.eq_dec (map e_slot W) s = 1%nat /\ Forall (fun x => e_fn x = F) W /\
-  ~ In e (g_act (fst (gs_step gs2 (GExec (F - 2))))) /\ In s (g_inact (fst (gs_step gs2 (GExec (F - 2))))).
+  ~ In e (g_act (fst (gs_step gs2 (GExec fx)))) /\ In s (g_inact (fst (gs_step gs2 (GExec fx)))).
 Proof. exact on_time. Qed.
 Print Assumptions c08_gsm_exactly_once_on_time.
+
+(* the same for executes with ANY frame numbers (not only the running clock): as long as none of them targets F the event stays pending
+   and is not handed over; the first execute whose target is F hands it over exactly once *)
+Theorem c08_gsm_fires_when_due : forall (gs : gstate) (s : nat) (rest : list nat) (si : list item) (F p3 : Z) (mid : list gop) (fnx : Z),
+  gs_ok gs -> g_inact gs = s :: rest ->
+  Forall (fun fn => gexec_target fn <> F) (exec_fns mid) -> ~ In GReset mid -> gexec_target fnx = F ->
+  let e := {| e_slot := s; e_si := si; e_fn := F; e_p3 := p3 |} in
+  let gs2 := fst (gs_run gs (GReq si F p3 :: mid)) in
+  let W := snd (gwalk (gexec_target fnx) (g_act gs2)) in
+  sched_gsmtime gs si F p3 = (fst (gs_step gs (GReq si F p3)), 0) /\
+  (forall fn fired, In (fn, fired) (snd (gs_run gs (GReq si F p3 :: mid))) -> ~ In s (map e_slot fired)) /\
+  gs_ok gs2 /\ In e (g_act gs2) /\
+  In e W /\ count_occ Nat.eq_dec (map e_slot W) s = 1%nat /\ Forall (fun x => e_fn x = F) W /\
+  ~ In e (g_act (fst (gs_step gs2 (GExec fnx)))) /\ In s (g_inact (fst (gs_step gs2 (GExec fnx)))).
+Proof. exact fires_when_due. Qed.
+Print Assumptions c08_gsm_fires_when_due.
 
 (* what the hand-over is for the TDMA scheduler: e the only pending event for its frame, sched_gsmtime_execute(fn) with fn + 2 = e's frame
    is exactly tdma_schedule_set(1, si, p3) (c08_set_offsets, c08_set_never_overwrites apply); its result is dropped by the code *)
@@ -417,20 +452,3 @@ Theorem c08_gsm_event_items_on_time : forall (rcf : item -> Z) (ts : sched) (gs 
     bucket_due s4 0 = [].
 Proof. exact event_items_on_time. Qed.
 Print Assumptions c08_gsm_event_items_on_time.
-
-(* REFUTED across the hyperframe wrap: sched_gsmtime_execute compares with fn + 2 unreduced, l1_sync passes frame numbers below 2715648,
-   so an event requested for frame 0 or 1 (prim_rach.c / prim_freq.c reduce the frame number modulo 2715648 themselves) is NEVER handed
-   over; witness: frame 2715640, request for frame 0 = 8 frames ahead: 40 frame interrupts hand nothing over and run nothing, the event
-   stays pending and keeps its slot; the same request for frame 2 runs in interrupt 9 (frame 1) *)
-Theorem c08_gsm_frame01_refuted :
-  (forall fn l e, 0 <= fn < 2715648 -> In e (snd (gwalk (gexec_target fn) l)) -> e_fn e <> 0 /\ e_fn e <> 1) /\
-  (match g_run ex_rcf (init 7) gs_init (GReq ex_set_b 0 77 :: frames 40 2715640) with
-   | (obs, GFOk ts gs) => (ran 0 obs, length (qlog obs), length (concat (qlog obs)), stored ts, map e_fn (g_act gs), length (g_inact gs))
-   | _ => ([], O, O, -1, [], O)
-   end = ([], 40%nat, 0%nat, 0, [0], 15%nat)) /\
-  (match g_run ex_rcf (init 7) gs_init (GReq ex_set_b 2 77 :: frames 40 2715640) with
-   | (obs, GFOk ts gs) => (ran 0 obs, map e_fn (g_act gs), length (g_inact gs))
-   | _ => ([], [], O)
-   end = ([(9, [ex_item 3 3 33 77 0])], [], 16%nat)).
-Proof. exact frame01_refuted. Qed.
-Print Assumptions c08_gsm_frame01_refuted.
